@@ -113,6 +113,7 @@ def ob_tree(tree, label, agg_none=False):
                                       f"rule = fl.Rule.create('if ' + {text!r} + ' then O is a', e); rule.weight = {lit(v['w'])}",
                                       "got = float(rule.activate_with(fl.NormLambda(AND), fl.NormLambda(OR)))",
                                       "again = float(rule.activate_with(fl.NormLambda(AND), fl.NormLambda(OR)))      # evaluating a rule does not change it",
+                                      "other = float(rule.activate_with(fl.NormLambda(OR), fl.NormLambda(AND)))      # the same loaded rule under other operators (here: swapped)",
                                       "def outdeg(term):",
                                       "    ds = [d for (t, _), d in zip(acts, degs) if t == term]",
                                       "    if not ds: return 0.0",
@@ -122,7 +123,10 @@ def ob_tree(tree, label, agg_none=False):
                                       "memb = lambda var, term: outdeg(term) if var == 'O' else mem[(var, term)]",
                                       f"tree = {tree!r}",
                                       f"exp = {lit(v['w'])} * evaluate(tree, lambda p: prop_semantics(p, memb, lambda n: flags[n]))",
-                                      f"verdict(not same(got, exp, 1e-9) or not same(rule.activation_degree, again) or not same(again, exp, 1e-9), 'if ' + {text!r} + ': activation degree %r, evaluated again %r, grammar semantics %r' % (got, again, exp))"])
+                                      "AND, OR = OR, AND",
+                                      f"exp_other = {lit(v['w'])} * evaluate(tree, lambda p: prop_semantics(p, memb, lambda n: flags[n]))",
+                                      "AND, OR = OR, AND",
+                                      f"verdict(not same(got, exp, 1e-9) or not same(rule.activation_degree, other) or not same(again, exp, 1e-9) or not same(other, exp_other, 1e-9), 'if ' + {text!r} + ': activation degree %r, evaluated again %r, grammar semantics %r; with the operators swapped %r, grammar semantics %r' % (got, again, exp, other, exp_other))"])
 
                 rp = replay_fn(PROPERTY, lab, rbody, key=None)
 
@@ -133,7 +137,9 @@ def ob_tree(tree, label, agg_none=False):
                     rule.weight = w
                     r = rule.activate_with(fl.NormLambda(AND), fl.NormLambda(OR))
                     again = rule.activate_with(fl.NormLambda(AND), fl.NormLambda(OR))
-                    return r, rule.activation_degree, again
+                    stored = rule.activation_degree
+                    other = rule.activate_with(fl.NormLambda(OR), fl.NormLambda(AND))      # the same loaded rule, the operators swapped
+                    return r, stored, again, other
 
                 def memb(v, t):
                     return out_degree(t) if v == OUT else mem[(v, t)]
@@ -142,10 +148,11 @@ def ob_tree(tree, label, agg_none=False):
                     if p.exc is not None:
                         ob.unexpected(pre, p, lab, ins, rp)
                         continue
-                    got, stored, again = p.result
+                    got, stored, again, other = p.result
                     val = rg.evaluate(tree, lambda q: rg.prop_semantics(q, memb, hedge, lambda n: flags[n], core.const(1.0), core.const(0.0)), AND, OR)
                     exp = w * val
-                    ob.prove(pre, p, z3.And(same(got, exp), same(stored, again), same(again, exp)), lab, ins, rp)
+                    val2 = rg.evaluate(tree, lambda q: rg.prop_semantics(q, memb, hedge, lambda n: flags[n], core.const(1.0), core.const(0.0)), OR, AND)
+                    ob.prove(pre, p, z3.And(same(got, exp), same(stored, again), same(again, exp), same(other, w * val2)), lab, ins, rp)
                     ob.expect_sat(pre, p, same(got, core.const(2.0)), f"{label}/twin")
 
     return run
